@@ -404,6 +404,13 @@ func run(c *core.Ctx) error {
 		if fres.FailedMerges > 0 && fres.Merged > 0 {
 			c.AddExtra("directed_mergefail_runs_with_a_failed_merge_over_unrecorded_merge_outputs", 1)
 		}
+		if ap := fres.AtPurge; ap != nil {
+			if op, _ := ap["opened"].(bool); !op {
+				c.Violation("c12/mergefail-reopen-at-purge", fmt.Sprintf("directed-mergefail: a copy of the directory taken right after the purge does not open: %v", ap["err"]), map[string]any{"scenario": name, "seed": c.Seed + int64(k)})
+			} else if n, _ := ap["count"].(int); n != 6 {
+				c.Violation("c12/mergefail-reopen-at-purge", fmt.Sprintf("directed-mergefail: a copy of the directory taken right after the purge opens with %d of 6 documents (silent fallback to older data)", n), map[string]any{"scenario": name, "seed": c.Seed + int64(k), "reopen": ap})
+			}
+		}
 		if fres.Reopen != nil {
 			if op, _ := fres.Reopen["opened"].(bool); !op {
 				c.Violation("c12/mergefail-reopen", fmt.Sprintf("directed-mergefail: reopening after a failed merge and a purge failed: %v", fres.Reopen["err"]), map[string]any{"scenario": name, "seed": c.Seed + int64(k)})
